@@ -4,7 +4,6 @@ import (
 	"fmt"
 
 	sdk "github.com/cosmos/cosmos-sdk/types"
-	"github.com/cosmos/cosmos-sdk/x/authz"
 	stakingtypes "github.com/cosmos/cosmos-sdk/x/staking/types"
 
 	"cosmossdk.io/math"
@@ -47,9 +46,8 @@ func (mcl CommissionLimitDecorator) AnteHandle(ctx sdk.Context, tx sdk.Tx, simul
 
 func (mcl CommissionLimitDecorator) hasInvalidCommissionRange(msgs []sdk.Msg) error {
 	for _, msg := range msgs {
-		// authz nested message check (recursive)
-		if execMsg, ok := msg.(*authz.MsgExec); ok {
-			msgs, err := execMsg.GetMessages()
+		// nested message check (recursive): authz exec, group and gov proposals
+		if msgs, ok, err := nestedMsgs(msg); ok {
 			if err != nil {
 				return err
 			}
